@@ -38,3 +38,33 @@ package v1
 //@   ensures @C04 s != "" && !isInt(s) ==> err != nil
 //@   ensures @C04 err == nil && s != "" ==> isInt(s) && n == intval(s)
 //@   ensures @C04,C20 err == nil ==> n <= 3660000
+
+// ---- raw values (C06, C03, C19): the bytes are exactly what the text says, for every length
+//@ func readRawString returns (res, err)
+//@   props C06 C03 C19
+//@   bounded TestVerifBoundedRaw
+//@   uses raw.smt2
+//@   let REST = trimPrefix(s, "!binary:")
+//@   assume len(typed(#G_encoding_asn1_NullBytes, "[]byte")) == 2 && typed(#G_encoding_asn1_NullBytes, "[]byte")[0] == 5 && typed(#G_encoding_asn1_NullBytes, "[]byte")[1] == 0
+//@   ensures @C06,C03,C19 hasPrefix(s, "!binary:") ==> ((err == nil) <==> isB64(REST)) && (err == nil ==> bytes(res) == b64dec(REST))
+//@   ensures @C06 !hasPrefix(s, "!binary:") && s == "!empty" ==> err == nil && len(res) == 0
+//@   ensures @C06 !hasPrefix(s, "!binary:") && s == "!null" ==> err == nil && bytes(res) == bcat(bunit(b8(5)), bunit(b8(0)))
+//@   ensures @C06 !hasPrefix(s, "!binary:") && s != "!empty" && s != "!null" ==> err != nil
+//@   abstracts (err == nil) <==> rawOk(s)
+//@   abstracts err == nil ==> bytes(res) == rawBytes(s)
+
+// ---- manipulations (C19): every given key sets exactly its field to exactly the given value; errors are reported
+//@ func (Manipulations).Apply returns (err)
+//@   props C19
+//@   uses raw.smt2 names.smt2
+//@   requires c != nil
+//@   assigns c.Manipulations
+//@   let CM = c.Manipulations
+//@   let OM = old(c.Manipulations)
+//@   ensures @C19 err == nil ==> CM.Version == (if m.Version != nil then m.Version else OM.Version)
+//@   ensures @C19 err == nil ==> (if m.OuterSigAlg != "" then isOidStr(m.OuterSigAlg) && CM.SignatureAlgorithm != nil && fresh(CM.SignatureAlgorithm) && oidv(deref(CM.SignatureAlgorithm).Algorithm) == parseOid(m.OuterSigAlg) && len(deref(CM.SignatureAlgorithm).Parameters.FullBytes) == 0 && len(deref(CM.SignatureAlgorithm).Parameters.Bytes) == 0 && deref(CM.SignatureAlgorithm).Parameters.Tag == 0 else CM.SignatureAlgorithm == OM.SignatureAlgorithm)
+//@   ensures @C19 err == nil ==> (if m.TbsSig != "" then isOidStr(m.TbsSig) && CM.TbsSignature != nil && fresh(CM.TbsSignature) && oidv(deref(CM.TbsSignature).Algorithm) == parseOid(m.TbsSig) && len(deref(CM.TbsSignature).Parameters.FullBytes) == 0 && len(deref(CM.TbsSignature).Parameters.Bytes) == 0 && deref(CM.TbsSignature).Parameters.Tag == 0 else CM.TbsSignature == OM.TbsSignature)
+//@   ensures @C19 err == nil ==> (if m.TbsPubKeyAlg != "" then isOidStr(m.TbsPubKeyAlg) && CM.TbsPublicKeyAlgorithm != nil && fresh(CM.TbsPublicKeyAlgorithm) && oidv(deref(CM.TbsPublicKeyAlgorithm).Algorithm) == parseOid(m.TbsPubKeyAlg) && len(deref(CM.TbsPublicKeyAlgorithm).Parameters.FullBytes) == 0 && len(deref(CM.TbsPublicKeyAlgorithm).Parameters.Bytes) == 0 && deref(CM.TbsPublicKeyAlgorithm).Parameters.Tag == 0 else CM.TbsPublicKeyAlgorithm == OM.TbsPublicKeyAlgorithm)
+//@   ensures @C19 err == nil ==> (if m.SigValue != "" then rawOk(m.SigValue) && CM.SignatureValue != nil && fresh(CM.SignatureValue) && bytes(deref(CM.SignatureValue).Bytes) == rawBytes(m.SigValue) && deref(CM.SignatureValue).BitLength == 8 * len(deref(CM.SignatureValue).Bytes) else CM.SignatureValue == OM.SignatureValue)
+//@   ensures @C19 err == nil ==> (if m.TbsPubKey != "" then rawOk(m.TbsPubKey) && CM.TbsPublicKey != nil && fresh(CM.TbsPublicKey) && bytes(deref(CM.TbsPublicKey).Bytes) == rawBytes(m.TbsPubKey) && deref(CM.TbsPublicKey).BitLength == 8 * len(deref(CM.TbsPublicKey).Bytes) else CM.TbsPublicKey == OM.TbsPublicKey)
+//@   ensures @C19 (m.OuterSigAlg != "" && !isOidStr(m.OuterSigAlg)) || (m.TbsSig != "" && !isOidStr(m.TbsSig)) || (m.TbsPubKeyAlg != "" && !isOidStr(m.TbsPubKeyAlg)) || (m.SigValue != "" && !rawOk(m.SigValue)) || (m.TbsPubKey != "" && !rawOk(m.TbsPubKey)) ==> err != nil
